@@ -83,7 +83,7 @@ Lemma evals_S : forall O G gd n s e0 r,
       end
   | SIf site a b => if o_cond O site n e0 then evals O G gd n a e0 r else evals O G gd n b e0 r
   | SGuard nom site y a k =>
-      if nom && negb gd then evals O G gd n k e0 r
+      if nom && negb (gd site) then evals O G gd n k e0 r
       else if List.length (pos (r y)) =? List.length e0 then evals O G gd n a e0 r
       else evals O G gd n k e0 r
   | SUnknown site => Some (o_unk O site n e0)
@@ -236,10 +236,10 @@ Qed.
 (* 1. soundness of the nullability analysis                                *)
 (* ====================================================================== *)
 Definition sound_p (O : oracle) (G : grammar_t) (nu : string -> bool) (n : nat) : Prop :=
-  forall p i r, evalp O G true n p i = Some r ->
+  forall p i r, evalp O G all_on n p i = Some r ->
     suffix (pos r) i /\ (is_ok r = true -> nullp nu p = false -> List.length (pos r) < List.length i).
 Definition sound_s (O : oracle) (G : grammar_t) (nu : string -> bool) (n : nat) : Prop :=
-  forall s e0 rr a r, evals O G true n s e0 rr = Some r -> env_ok e0 rr -> aenv_ok e0 rr a ->
+  forall s e0 rr a r, evals O G all_on n s e0 rr = Some r -> env_ok e0 rr -> aenv_ok e0 rr a ->
     suffix (pos r) e0 /\ (is_ok r = true -> nulls nu a s = false -> List.length (pos r) < List.length e0).
 
 Lemma retv_pos : forall m v, suffix (pos (retv m v)) (pos v).
@@ -277,7 +277,7 @@ Proof.
         intros Hok Hn. cbn in Hn. apply H2; [exact Hok|]. apply (Hnu f b); [now apply lookup_in|exact Hn].
       * inversion H; subst. cbn. split; [apply suffix_refl|intros Hc; discriminate Hc].
     + inversion H; subst. split; [destruct i; cbn; apply suffix_refl|]. intros _ Hn. discriminate.
-    + destruct (all_some (map (fun q => evalp O G true n q i) l)) as [rs|] eqn:Ea; [|discriminate].
+    + destruct (all_some (map (fun q => evalp O G all_on n q i) l)) as [rs|] eqn:Ea; [|discriminate].
       inversion H; subst. clear H.
       pose proof (ab_scan_result i rs rs fl None None None (incl_refl _) I I I) as Hr.
       destruct Hr as [Hr|[Hr|Hr]].
@@ -293,7 +293,7 @@ Proof.
     + inversion H; subst. clear H. split.
       * eapply suffix_trans; [apply retv_pos|apply He].
       * intros Hok Hn. now apply (sret_sound nu e0 rr a m x).
-    + destruct (evalp O G true n p (pos (rr x))) as [r1|] eqn:Ep; [|discriminate].
+    + destruct (evalp O G all_on n p (pos (rr x))) as [r1|] eqn:Ep; [|discriminate].
       destruct (IHp _ _ _ Ep) as [Hp1 Hp2].
       assert (Hsx : suffix (pos r1) e0) by (eapply suffix_trans; [exact Hp1|apply He]).
       pose proof (suffix_length _ _ Hp1) as Hl1. pose proof (suffix_length _ _ (He x)) as Hl2.
@@ -325,7 +325,7 @@ Proof.
         intros Hok Hn. apply H2; [exact Hok|]. apply orb_false_iff in Hn. now destruct Hn.
       * destruct (IHs _ _ _ _ _ H He Ha) as [H1 H2]. split; [exact H1|].
         intros Hok Hn. apply H2; [exact Hok|]. apply orb_false_iff in Hn. now destruct Hn.
-    + cbn [nulls]. replace (nom && negb true) with false in H by (destruct nom; reflexivity).
+    + cbn [nulls]. replace (nom && negb (all_on site)) with false in H by (destruct nom; reflexivity).
       destruct (List.length (pos (rr y)) =? List.length e0) eqn:El.
       * destruct (IHs _ _ _ _ _ H He Ha) as [H1 H2]. split; [exact H1|].
         intros Hok Hn. apply H2; [exact Hok|]. apply orb_false_iff in Hn. now destruct Hn.
@@ -345,7 +345,7 @@ Proof.
 Qed.
 
 Theorem nullable_sound : forall O G nu, oracle_ok O -> nu_bad nu G = [] ->
-  forall n p i r, evalp O G true n p i = Some r ->
+  forall n p i r, evalp O G all_on n p i = Some r ->
     suffix (pos r) i /\ (is_ok r = true -> nullp nu p = false -> strict_suffix (pos r) i).
 Proof.
   intros O G nu HO Hnu n p i r H.
@@ -417,10 +417,10 @@ Section Termination.
 
   Definition term_p (n : nat) : Prop :=
     forall p i r, r <= R -> calls_ok rk R r (fcallsp nu p) ->
-      List.length i * (R * Sz) + r * Sz + sizep p < n -> exists res, evalp O G true n p i = Some res.
+      List.length i * (R * Sz) + r * Sz + sizep p < n -> exists res, evalp O G all_on n p i = Some res.
   Definition term_s (n : nat) : Prop :=
     forall s e0 rr a r, r <= R -> env_ok e0 rr -> aenv_ok e0 rr a -> calls_ok rk R r (fcallss nu a s) ->
-      List.length e0 * (R * Sz) + r * Sz + sizes s < n -> exists res, evals O G true n s e0 rr = Some res.
+      List.length e0 * (R * Sz) + r * Sz + sizes s < n -> exists res, evals O G all_on n s e0 rr = Some res.
 
   Lemma term_step : forall n, term_p n -> term_s n -> term_p (S n) /\ term_s (S n).
   Proof.
@@ -440,7 +440,7 @@ Section Termination.
         cbn [Nat.mul] in H. lia.
       + eexists; reflexivity.
       + cbn [sizep] in Hm. cbn [fcallsp] in Hc.
-        destruct (all_some_total (fun q => evalp O G true n q i) l) as [rs Hrs].
+        destruct (all_some_total (fun q => evalp O G all_on n q i) l) as [rs Hrs].
         * intros q Hq. apply (IHp q i r); [exact Hr|now apply (calls_ok_flat_map rk R r (fcallsp nu) l)|].
           pose proof (in_list_sum l q Hq). lia.
         * rewrite Hrs. eexists; reflexivity.
@@ -453,7 +453,7 @@ Section Termination.
         apply calls_ok_app in Hc. destruct Hc as [Hc1 Hc]. apply calls_ok_app in Hc. destruct Hc as [Hc2 Hc].
         apply calls_ok_app in Hc. destruct Hc as [Hc3 Hc4].
         pose proof (suffix_length _ _ (He x)) as Hlx.
-        assert (Hp : exists r1, evalp O G true n p (pos (rr x)) = Some r1).
+        assert (Hp : exists r1, evalp O G all_on n p (pos (rr x)) = Some r1).
         { destruct (fst (a x)) eqn:Ecx.
           - destruct (Ha x) as [Hcx _]. specialize (Hcx Ecx).
             apply (IHp p (pos (rr x)) R); [lia|now left|].
@@ -487,7 +487,7 @@ Section Termination.
         * apply (IHs s1 e0 rr a r); try assumption. lia.
         * apply (IHs s2 e0 rr a r); try assumption. lia.
       + cbn [sizes] in Hm. cbn [fcallss] in Hc. apply calls_ok_app in Hc. destruct Hc as [Hc1 Hc2].
-        replace (nom && negb true) with false by (destruct nom; reflexivity).
+        replace (nom && negb (all_on site)) with false by (destruct nom; reflexivity).
         destruct (List.length (pos (rr y)) =? List.length e0) eqn:El.
         * apply (IHs s1 e0 rr a r); try assumption. lia.
         * apply Nat.eqb_neq in El. pose proof (suffix_length _ _ (He y)) as Hly.
@@ -506,7 +506,7 @@ End Termination.
 
 Theorem eval_terminates : forall O G nu rk, oracle_ok O -> nu_bad nu G = [] -> rank_bad nu rk G = [] ->
   forall p i n, (List.length i + 1) * (S (max_rank rk G) * S (max_size G)) + sizep p < n ->
-    exists r, evalp O G true n p i = Some r.
+    exists r, evalp O G all_on n p i = Some r.
 Proof.
   intros O G nu rk HO Hnu Hrk p i n Hn.
   set (R := S (max_rank rk G)) in *. set (Sz := S (max_size G)) in *.
@@ -517,22 +517,35 @@ Proof.
 Qed.
 
 (* ====================================================================== *)
-(* 3. nom's infinite-loop guards are dead code                             *)
+(* 3. nom's infinite-loop guards are dead code (except the listed ones)    *)
 (* ====================================================================== *)
-Definition guards_ok (nu : string -> bool) (G : grammar_t) : Prop := forall f b, In (f, b) G -> guardsp nu b = [].
+(* L: the guards that the analysis cannot show dead.  Removing any of the OTHER guards changes no result. *)
+Definition guards_in (nu : string -> bool) (G : grammar_t) (L : list string) : Prop :=
+  forall f b, In (f, b) G -> incl (guardsp nu b) L.
 
-Lemma guards_live_nil : forall nu G, guards_live nu G = [] -> guards_ok nu G.
-Proof. intros nu G H f b Hin. exact (flat_map_nil _ _ H (f, b) Hin). Qed.
+Lemma guards_live_incl : forall nu G, guards_in nu G (guards_live nu G).
+Proof.
+  intros nu G f b Hin x Hx. unfold guards_live. apply in_flat_map. exists (f, b). split; assumption.
+Qed.
+
+Lemma incl_app_l : forall {A} (l1 l2 L : list A), incl (l1 ++ l2) L -> incl l1 L.
+Proof. intros A l1 l2 L H x Hx. apply H. apply in_or_app. now left. Qed.
+Lemma incl_app_r : forall {A} (l1 l2 L : list A), incl (l1 ++ l2) L -> incl l2 L.
+Proof. intros A l1 l2 L H x Hx. apply H. apply in_or_app. now right. Qed.
+
+Lemma incl_flat_map : forall {A B} (f : A -> list B) l L, incl (flat_map f l) L -> forall q, In q l -> incl (f q) L.
+Proof. intros A B f l L H q Hq x Hx. apply H. apply in_flat_map. exists q. split; assumption. Qed.
 
 Section Guards.
-  Context (O : oracle) (G : grammar_t) (nu : string -> bool).
-  Context (HO : oracle_ok O) (Hnu : nu_ok nu G) (Hg : guards_ok nu G).
+  Context (O : oracle) (G : grammar_t) (nu : string -> bool) (L : list string) (gd : string -> bool).
+  Context (HO : oracle_ok O) (Hnu : nu_ok nu G) (Hg : guards_in nu G L).
+  Context (Hgd : forall site, In site L -> gd site = true).
 
   Definition dead_p (n : nat) : Prop :=
-    forall p i, guardsp nu p = [] -> evalp O G false n p i = evalp O G true n p i.
+    forall p i, incl (guardsp nu p) L -> evalp O G gd n p i = evalp O G all_on n p i.
   Definition dead_s (n : nat) : Prop :=
-    forall s e0 rr a, env_ok e0 rr -> aenv_ok e0 rr a -> guardss nu a s = [] ->
-      evals O G false n s e0 rr = evals O G true n s e0 rr.
+    forall s e0 rr a, env_ok e0 rr -> aenv_ok e0 rr a -> incl (guardss nu a s) L ->
+      evals O G gd n s e0 rr = evals O G all_on n s e0 rr.
 
   Lemma dead_step : forall n, dead_p n -> dead_s n -> dead_p (S n) /\ dead_s (S n).
   Proof.
@@ -543,16 +556,17 @@ Section Guards.
       + destruct (lookup f G) as [b|] eqn:El; [|reflexivity].
         apply IHp. apply (Hg f b). now apply lookup_in.
       + cbn [guardsp] in Hgp.
-        rewrite (map_ext_in (fun q => evalp O G false n q i) (fun q => evalp O G true n q i)); [reflexivity|].
-        intros q Hq. apply IHp. exact (flat_map_nil _ _ Hgp q Hq).
+        rewrite (map_ext_in (fun q => evalp O G gd n q i) (fun q => evalp O G all_on n q i)); [reflexivity|].
+        intros q Hq. apply IHp. exact (incl_flat_map _ _ _ Hgp q Hq).
       + cbn [guardsp] in Hgp. apply (IHs s i _ a0); [apply env_ok_init|apply aenv_ok_init|exact Hgp].
     - intros s e0 rr a He Ha Hgs. rewrite !evals_S.
       destruct s as [m x|p x y e kok kerr kfail|site s1 s2|nom site y s1 s2|site|site]; try reflexivity.
       + cbn [guardss] in Hgs.
-        apply app_eq_nil in Hgs. destruct Hgs as [G1 Hgs]. apply app_eq_nil in Hgs. destruct Hgs as [G2 Hgs].
-        apply app_eq_nil in Hgs. destruct Hgs as [G3 G4].
+        pose proof (incl_app_l _ _ _ Hgs) as G1. apply incl_app_r in Hgs.
+        pose proof (incl_app_l _ _ _ Hgs) as G2. apply incl_app_r in Hgs.
+        pose proof (incl_app_l _ _ _ Hgs) as G3. pose proof (incl_app_r _ _ _ Hgs) as G4.
         rewrite (IHp p (pos (rr x)) G1).
-        destruct (evalp O G true n p (pos (rr x))) as [r1|] eqn:Ep; [|reflexivity].
+        destruct (evalp O G all_on n p (pos (rr x))) as [r1|] eqn:Ep; [|reflexivity].
         destruct (Sp _ _ _ Ep) as [Hp1 Hp2].
         assert (Hsx : suffix (pos r1) e0) by (eapply suffix_trans; [exact Hp1|apply He]).
         pose proof (suffix_length _ _ Hp1) as Hl1. pose proof (suffix_length _ _ (He x)) as Hlx.
@@ -571,21 +585,25 @@ Section Guards.
           destruct kfail as [kf|].
           -- apply (IHs kf e0 _ (a_err a x e)); [now apply env_ok_upd|exact Ha'|exact G4].
           -- apply (IHs kerr e0 _ (a_err a x e)); [now apply env_ok_upd|exact Ha'|exact G3].
-      + cbn [guardss] in Hgs. apply app_eq_nil in Hgs. destruct Hgs as [G1 G2].
+      + cbn [guardss] in Hgs. pose proof (incl_app_l _ _ _ Hgs) as G1. pose proof (incl_app_r _ _ _ Hgs) as G2.
         destruct (o_cond O site n e0); now apply (IHs _ e0 rr a).
-      + cbn [guardss] in Hgs. apply app_eq_nil in Hgs. destruct Hgs as [G0 Hgs].
-        apply app_eq_nil in Hgs. destruct Hgs as [G1 G2].
-        destruct nom; cbn [andb negb].
-        * (* a nom guard: shown dead by the analysis *)
-          destruct (fst (a y)) eqn:Ecy; [|discriminate G0].
-          destruct (Ha y) as [Hcy _]. specialize (Hcy Ecy).
-          assert (El : (List.length (pos (rr y)) =? List.length e0) = false) by (apply Nat.eqb_neq; lia).
-          rewrite El. apply (IHs s2 e0 rr (a_cons a y)); [exact He|now apply aenv_ok_cons|exact G2].
-        * (* a progress check of the source: present in both semantics *)
-          destruct (List.length (pos (rr y)) =? List.length e0) eqn:El.
-          -- now apply (IHs s1 e0 rr a).
-          -- apply Nat.eqb_neq in El. pose proof (suffix_length _ _ (He y)) as Hly.
-             apply (IHs s2 e0 rr (a_cons a y)); [exact He|apply aenv_ok_cons; [exact Ha|lia]|exact G2].
+      + cbn [guardss] in Hgs. pose proof (incl_app_l _ _ _ Hgs) as G0. apply incl_app_r in Hgs.
+        pose proof (incl_app_l _ _ _ Hgs) as G1. pose proof (incl_app_r _ _ _ Hgs) as G2.
+        replace (nom && negb (all_on site)) with false by (destruct nom; reflexivity).
+        assert (Hk : List.length (pos (rr y)) =? List.length e0 = false ->
+                     evals O G gd n s2 e0 rr = evals O G all_on n s2 e0 rr).
+        { intros El. apply Nat.eqb_neq in El. pose proof (suffix_length _ _ (He y)) as Hly.
+          apply (IHs s2 e0 rr (a_cons a y)); [exact He|apply aenv_ok_cons; [exact Ha|lia]|exact G2]. }
+        destruct nom; cbn [andb].
+        * destruct (fst (a y)) eqn:Ecy.
+          -- (* shown dead by the analysis: the check cannot succeed, with or without it the loop goes on *)
+             destruct (Ha y) as [Hcy _]. specialize (Hcy Ecy).
+             assert (El : (List.length (pos (rr y)) =? List.length e0) = false) by (apply Nat.eqb_neq; lia).
+             rewrite El. destruct (negb (gd site)); now apply Hk.
+          -- (* not shown dead: it is one of L, hence kept *)
+             cbn [negb andb] in G0. rewrite (Hgd site (G0 site (or_introl eq_refl))). cbn [negb].
+             destruct (List.length (pos (rr y)) =? List.length e0) eqn:El; [now apply (IHs s1 e0 rr a)|now apply Hk].
+        * destruct (List.length (pos (rr y)) =? List.length e0) eqn:El; [now apply (IHs s1 e0 rr a)|now apply Hk].
   Qed.
 
   Lemma dead_all : forall n, dead_p n /\ dead_s n.
@@ -596,10 +614,11 @@ Section Guards.
   Qed.
 End Guards.
 
-Theorem guards_dead : forall O G nu, oracle_ok O -> nu_bad nu G = [] -> guards_live nu G = [] ->
-  forall n f i, evalp O G false n (PCall f) i = evalp O G true n (PCall f) i.
+Theorem guards_dead : forall O G nu gd, oracle_ok O -> nu_bad nu G = [] ->
+  (forall site, In site (guards_live nu G) -> gd site = true) ->
+  forall n f i, evalp O G gd n (PCall f) i = evalp O G all_on n (PCall f) i.
 Proof.
-  intros O G nu HO Hnu Hg n f i.
-  destruct (dead_all O G nu HO (nu_bad_nil _ _ Hnu) (guards_live_nil _ _ Hg) n) as [Hp _].
-  now apply Hp.
+  intros O G nu gd HO Hnu Hgd n f i.
+  destruct (dead_all O G nu (guards_live nu G) gd HO (nu_bad_nil _ _ Hnu) (guards_live_incl nu G) Hgd n) as [Hp _].
+  apply Hp. cbn. intros x Hx. contradiction.
 Qed.
